@@ -189,3 +189,31 @@ Definition ctl_req (c : command) : Z * Z * Z * Z :=
 (* end to end: every Command left behind is executed once (C20_at_most_once per Command) *)
 Definition e2e_requests (invs : list inv) : list (Z * Z * Z * Z) :=
   flat_map (fun i => map ctl_req (r_new (cli_invoke i))) invs.
+
+(* ---------- which Commands a controller takes: the filter on its Command informer handler ---------- *)
+(* TargetObject of a delivered Command: None = nil; kind 1 "Job", 2 "Queue", other = any
+   other kind; apiVersion 1 batch.volcano.sh/v1alpha1, 2 scheduling.volcano.sh/v1beta1,
+   other = anything else (another group, another version of the same group, empty) *)
+Record dcmd := mkDcmd { d_target : option (Z * Z); d_ns : Z; d_name : Z; d_action : Z }.
+
+(* job controller (ctrl = 1): TargetObject != nil && APIVersion == batch/v1alpha1 && Kind == "Job"
+   (job_controller.go 206-216); queue controller (ctrl = 2): IsQueueReference: ref != nil &&
+   APIVersion == scheduling/v1beta1 && Kind == "Queue" (queue_controller_util.go 36-50) *)
+Definition accepts (ctrl : Z) (d : dcmd) : bool :=
+  match d_target d with
+  | Some (k, v) => (k =? ctrl) && (v =? ctrl)
+  | None => false
+  end.
+
+(* the request a controller derives: the job controller keeps the Command's namespace,
+   the queue controller's request has none (0) *)
+Definition dreq (ctrl : Z) (d : dcmd) : request := (if ctrl =? 1 then d_ns d else 0, d_name d, d_action d).
+
+(* both controllers watch the same Commands (all present, each delivered once, Delete
+   healthy): per Command the number of Delete calls and whether it is still there, and the
+   requests of each controller in delivery order *)
+Definition deletes_of (d : dcmd) : nat :=
+  ((if accepts 1 d then 1 else 0) + (if accepts 2 d then 1 else 0))%nat.
+Definition informer_run (l : list dcmd) : list (nat * bool) * list request * list request :=
+  (map (fun d => (deletes_of d, negb (accepts 1 d || accepts 2 d))) l,
+   map (dreq 1) (filter (accepts 1) l), map (dreq 2) (filter (accepts 2) l)).
